@@ -384,6 +384,43 @@ func c07Single(t *rapid.T) []kit.Argv {
 	return out
 }
 
+// c07Same: a key with a deadline is overwritten by a replacing command with exactly the value it already
+// holds. "Nothing changed" is not a reason to keep the deadline: the replacing commands clear it (or carry
+// the source's), whatever the bytes are.
+func c07Same(t *rapid.T) []kit.Argv {
+	dl := kit.A(pick(t, "dl", []string{"PEXPIREAT", "K", "4102444800123"}, []string{"EXPIRE", "K", "100000"})...)
+	withKey := func(a kit.Argv, k string) kit.Argv {
+		out := append(kit.Argv(nil), a...)
+		for i := range out {
+			if out[i] == "K" {
+				out[i] = kit.S(k)
+			}
+		}
+		return out
+	}
+	switch rapid.IntRange(0, 2).Draw(t, "samety") {
+	case 0:
+		k := "ks"
+		out := []kit.Argv{kit.A("SET", k, "10"), withKey(dl, k)}
+		out = append(out, kit.A(pick(t, "same", []string{"SET", k, "10"}, []string{"GETSET", k, "10"}, []string{"MSET", k, "10"}, []string{"BITOP", "AND", k, k}, []string{"BITOP", "OR", k, k, k},
+			[]string{"BITOP", "XOR", k, k, "kmiss"}, []string{"BITOP", "OR", k, k, "kmiss"}, []string{"SET", k, "10", "KEEPTTL"}, []string{"APPEND", k, ""}, []string{"SETRANGE", k, "0", "10"}, []string{"SETNX", k, "10"})...))
+		return append(out, kit.A("PEXPIRETIME", k))
+	case 1:
+		// the destination of BITOP already holds what the operation computes
+		out := []kit.Argv{kit.A("SET", "ks", "ab"), kit.A("SET", "ks2", "ab"), kit.A(pick(t, "op", "BITOP"), pick(t, "bop", "AND", "OR"), "kd", "ks", "ks2"), withKey(dl, "kd")}
+		out = append(out, kit.A("BITOP", pick(t, "bop2", "AND", "OR", "XOR", "NOT"), "kd", "ks"), kit.A("PEXPIRETIME", "kd"))
+		if rapid.Bool().Draw(t, "again") {
+			out = append(out, withKey(dl, "kd"), kit.A("BITOP", "OR", "kd", "kd", "ks2"), kit.A("PEXPIRETIME", "kd"))
+		}
+		return out
+	default:
+		k := "kz"
+		out := []kit.Argv{kit.A("DEL", k), kit.A("SADD", k, "1", "2"), withKey(dl, k)}
+		out = append(out, kit.A(pick(t, "sames", []string{"SUNIONSTORE", k, k}, []string{"SINTERSTORE", k, k, k}, []string{"SDIFFSTORE", k, k, "kmiss"}, []string{"SUNIONSTORE", k, k, "kmiss"}, []string{"SADD", k, "1"}, []string{"SMOVE", k, k, "1"})...))
+		return append(out, kit.A("PEXPIRETIME", k))
+	}
+}
+
 func c07BGen(t *rapid.T) SeqCase {
 	var steps []kit.Argv
 	for _, s := range setupTyped()[:4] {
@@ -391,6 +428,10 @@ func c07BGen(t *rapid.T) SeqCase {
 	}
 	n := rapid.IntRange(6, 40).Draw(t, "steps")
 	for i := 0; i < n; i++ {
+		if rapid.IntRange(0, 11).Draw(t, "same") == 0 {
+			steps = append(steps, c07Same(t)...)
+			continue
+		}
 		if rapid.IntRange(0, 11).Draw(t, "single") == 0 {
 			steps = append(steps, c07Single(t)...)
 			continue
